@@ -30,3 +30,15 @@ Theorem c06_skip_to_end_until_first_gap : forall e, iter_env e -> forall progs, 
   check_prop 6 e (c_trace (exec e (init progs) sched)) (c_labels (exec e (init progs) sched)) = true.
 Proof. exact iter_C06_until_gap. Qed.
 Print Assumptions c06_skip_to_end_until_first_gap.
+
+(** ** after the repair of the waiting loop (a thread that finds its ticket at the yielded counter looks at
+    the completed flag once more before it uses the wrapped iterator): nothing is delivered after the first
+    None of the wrapped iterator, premature or not ([C07.c07_no_call_after_none]) *)
+From OCI.proofs Require Import AfterNone.
+
+(** every wrapped iterator, fused or not: the whole of C06, on every run *)
+Theorem c06_skip_to_end_any_iterator : forall e, iter_env e -> forall progs, wf_progs progs -> forall sched,
+  nowrap (c_labels (exec e (init progs) sched)) ->
+  check_prop 6 e (c_trace (exec e (init progs) sched)) (c_labels (exec e (init progs) sched)) = true.
+Proof. exact iter_C06_any. Qed.
+Print Assumptions c06_skip_to_end_any_iterator.
